@@ -582,6 +582,13 @@ pub fn run_shut_case(which: Which, case: &ShutCase) -> SeqOutcome {
         }
         let log1 = world.take_log();
         check_phase(&PhaseCheck { which, case, model: &model, phase: 1 }, &r1, &log1, &sh2, &mut ids, &mut v);
+        // listed finding cyc-kf5 (provisional member of a vanished cycle accepted as final)
+        let mut abandoned = false;
+        if prog_lattice {
+            let km = world.ctx.keymap.lock().unwrap().clone();
+            let node_of = |id: u64| km.get(&id).map(|x| x.0);
+            abandoned = crate::props::cyc::abandoned_member_signature(&log1, &node_of);
+        }
         // listed finding cyc-kf1: a cycle finalized in phase 1 while the dependency list of one
         // of its heads was still changing -> stale members are possible in phase 2
         let mut unstable = false;
@@ -631,6 +638,20 @@ pub fn run_shut_case(which: Which, case: &ShutCase) -> SeqOutcome {
                     if x.rule == "value-mismatch" {
                         x.rule = crate::props::cyc::KF_STALE_DEPS.to_string();
                     }
+                }
+            }
+            if prog_lattice {
+                let km = world.ctx.keymap.lock().unwrap().clone();
+                let node_of = |id: u64| km.get(&id).map(|x| x.0);
+                if crate::props::cyc::abandoned_member_signature(&log2, &node_of) {
+                    abandoned = true;
+                }
+            }
+        }
+        if abandoned {
+            for x in v.iter_mut() {
+                if x.rule == "value-mismatch" {
+                    x.rule = crate::props::cyc::KF_ABANDONED.to_string();
                 }
             }
         }
